@@ -48,3 +48,4 @@ def run(ctx, rep):
     optargs.rule_argument_count_cases(ctx, rep, "C17-R23")
     builtins.rule_live_container_iteration(ctx, rep, "C17-R24")
     builtins.rule_sort_on_a_copy(ctx, rep, "C17-R25")
+    optargs.rule_iteration_callbacks(ctx, rep, "C17-R26")
